@@ -241,6 +241,32 @@ cipher_max_len(IMB_CIPHER_MODE c, IMB_CIPHER_DIRECTION d)
                 return 1 << 20;
         }
 }
+/* maximum accepted hash length in bytes */
+static uint32_t
+hash_max_len(IMB_HASH_ALG h)
+{
+        switch (h) {
+        case IMB_AUTH_ZUC_EIA3_BITLEN:
+        case IMB_AUTH_ZUC256_EIA3_BITLEN:
+                return 8188;
+        case IMB_AUTH_KASUMI_UIA1:
+                return 2500;
+        case IMB_AUTH_POLY1305:
+        case IMB_AUTH_SNOW3G_UIA2_BITLEN:
+        case IMB_AUTH_AES_GMAC_128:
+        case IMB_AUTH_AES_GMAC_192:
+        case IMB_AUTH_AES_GMAC_256:
+        case IMB_AUTH_GHASH:
+        case IMB_AUTH_SM3:
+        case IMB_AUTH_HMAC_SM3:
+                return 1 << 20;
+        default:
+                if (h >= IMB_AUTH_CRC32_ETHERNET_FCS && h <= IMB_AUTH_CRC6_IUUP_HEADER)
+                        return 1 << 20;
+                return 65534;
+        }
+}
+
 /* permitted tag lengths: returns count, fills list */
 static int
 tag_lens(IMB_HASH_ALG h, int *l)
@@ -821,8 +847,8 @@ item_gen(struct item *it, const struct suite *cs, const struct suite *hs, struct
                 } else {
                         if (it->hash == IMB_AUTH_KASUMI_UIA1 && len < 9)
                                 len = 9;
-                        if (it->hash == IMB_AUTH_KASUMI_UIA1 && len > 2500)
-                                len = 2500; /* 20000 bits */
+                        if (len > hash_max_len(it->hash))
+                                len = hash_max_len(it->hash);
                         if (len == 0 && (it->hash <= IMB_AUTH_HMAC_SHA_512 || it->hash == IMB_AUTH_MD5 ||
                                          it->hash == IMB_AUTH_HMAC_SM3))
                                 len = 1;
@@ -831,6 +857,18 @@ item_gen(struct item *it, const struct suite *cs, const struct suite *hs, struct
         }
         if (chained) {
                 /* generic chaining: in place, hash range covers the cipher range plus a prefix */
+                uint32_t hmax = hash_max_len(it->hash);
+                if (it->c_off + it->c_len > hmax) {
+                        unsigned blk = cipher_block(it->cipher);
+                        it->c_len = (hmax - it->c_off) / blk * blk;
+                        if (cipher_is_bitlen(it->cipher))
+                                it->c_len_bits = it->c_len * 8 - it->c_off_bits;
+                }
+                if ((it->cipher == IMB_CIPHER_SNOW3G_UEA2_BITLEN) && it->c_off_bits == 0 && (it->c_len_bits & 7)) {
+                        /* the bits of the last byte beyond the message are unspecified for SNOW3G with
+                         * a zero offset; a hash over that byte would be unspecified too */
+                        it->c_len_bits = (it->c_len_bits + 7) & ~7u;
+                }
                 it->h_off = 0;
                 it->h_len = it->c_off + it->c_len;
                 if (it->hash == IMB_AUTH_KASUMI_UIA1 && it->h_len < 9)
@@ -1460,8 +1498,6 @@ hash_ref(struct item *it, const uint8_t *msg, uint8_t *tag)
         case IMB_AUTH_GHASH: {
                 uint8_t init[16] = { 0 };
                 memcpy(init, it->init_tag, it->tag_len);
-                if (it->tag_len < 16)
-                        it->have_ref = 0; /* starting state beyond the tag is unspecified */
                 ref_ghash_raw(it->k.akey, init, msg, len, full);
                 break;
         }
@@ -1697,4 +1733,37 @@ refs_selftest_or_die(void)
         bad += ref_snowv_selftest();
         if (bad)
                 harness_fail("reference model self-test failed (%d)", bad);
+}
+
+void
+imbv_hmac_sha1_ref(const uint8_t *key, size_t klen, const uint8_t *msg, size_t len, uint8_t *out12)
+{
+        uint8_t full[20];
+        unsigned int ol = 0;
+        HMAC(EVP_sha1(), key, (int) klen, msg, len, full, &ol);
+        memcpy(out12, full, 12);
+}
+
+/* which algorithm of the item owns the object kind that faulted */
+const char *
+item_fault_suite(const struct item *it, const char *kind)
+{
+        static const char *hk[] = { "tag", "authiv", "inittag", "ipad", "opad", "xcbc_k1", "xcbc_k2", "xcbc_k3",
+                                    "cmac_key", "cmac_sk1", "cmac_sk2", "gmackey", "ghashkey", "authkey",
+                                    "snow3gakey", "kasumiakey" };
+        if (it->cipher == IMB_CIPHER_NULL)
+                return hash_name(it->hash);
+        if (it->hash != IMB_AUTH_NULL)
+                for (unsigned i = 0; i < ARRAY_SZ(hk); i++)
+                        if (!strcmp(kind, hk[i]))
+                                return hash_name(it->hash);
+        if (it->hash != IMB_AUTH_NULL && !strcmp(kind, "src") &&
+            !(it->cipher == IMB_CIPHER_CHACHA20 || it->cipher == IMB_CIPHER_CHACHA20_POLY1305)) {
+                /* a source over-read of a chained job: attribute to the hash when the cipher is not a
+                 * known offender (keys stay specific to the real reader as far as can be told) */
+                static __thread char b[64];
+                snprintf(b, sizeof b, "%s+%s", cipher_name(it->cipher), hash_name(it->hash));
+                return b;
+        }
+        return cipher_name(it->cipher);
 }
